@@ -46,6 +46,8 @@ def cases(rng, tier):
         + S.size_bound_cases(random.Random("size" + str(rng.getstate()[1][0]))) \
         + X.directed_corrupt_cases() + X.gen_corrupt_cases(rng, 300 if tier == "quick" else 6000) \
         + X.directed_image_cases() + X.image_cases(random.Random("img" + str(rng.getstate()[1][0])), 150 if tier == "quick" else 3000) \
+        + [dict(c, suite="extras-corrupt", nested=False, corrupt=[random.Random(str(i)).randrange(len(c["fields"])), i % len(X.CORRUPTIONS), i % 3])
+           for i, c in enumerate(X.undef_cases(random.Random("undefc" + str(rng.getstate()[1][0])), 100 if tier == "quick" else 2000))] \
         + X.decimal_cases() + IH.directed_cases() + IH.gen_cases(random.Random(str(rng.getstate()[1][0])), 300 if tier == "quick" else 6000)
 
 
